@@ -288,6 +288,39 @@ pub fn run(tier: &str) -> Result<Report, String> {
             }
         }
     }
+    // nests of 13..24 and 33 quantifiers (canonical names var12.. : two-digit indices, more names than any
+    // prepared table), names by nesting depth; every sub-formula (1..d free variables) goes to the set
+    {
+        let mut n_wide = 0u64;
+        for d in [13usize, 14, 15, 16, 17, 18, 20, 24, 33] {
+            for variant in 0..3 {
+                let name = |i: usize| "x".repeat(i + 1);
+                let mut q = String::new();
+                for i in 0..d {
+                    q.push_str(&format!("{}{{{}}}: ", ["!", "3", "V"][(i + variant) % 3], name(i)));
+                }
+                let body: Vec<String> = match variant {
+                    0 => (0..d).map(|i| format!("{{{}}}", name(i))).collect(),
+                    1 => (0..d).rev().map(|i| format!("AX {{{}}}", name(i))).collect(),
+                    _ => (0..d).map(|i| format!("(@{{{}}}: {{{}}})", name(i), name((i * 5 + 3) % d))).collect(),
+                };
+                // right-nested conjunction: the innermost pair is the last two variables
+                let mut b = body[d - 1].clone();
+                for i in (0..d - 1).rev() {
+                    b = format!("({} & {})", body[i], b);
+                }
+                let text = format!("{q}(EF {b})");
+                let t = rp::parse_str(&text, true).map_err(|e| format!("harness: wide nest does not parse: {e}"))?;
+                let mut v = vec![];
+                t.subtrees(&mut v);
+                for s in v {
+                    subs.insert(s.clone());
+                }
+                n_wide += 1;
+            }
+        }
+        rep.set("wide_nests", json!(n_wide));
+    }
     // identifier shapes: the canoniser works on the characters of the stored text, so names that end in
     // / consist of the quantifier symbols (p53, HIV, V, 3x, ...), names of canonical variables (var0) and
     // such labels, in every operand position
@@ -464,6 +497,6 @@ pub fn run(tier: &str) -> Result<Report, String> {
     rep.violations.extend(lb.into_iter().take(40));
     rep.sample(json!({"subtree": "(AX {xx})", "canonical": get_canonical("(AX {xx})".to_string())}));
     rep.sample(json!({"marking_list": [pool[1].render(), pool[5].render()]}));
-    rep.rule = format!("every distinct sub-tree of every well-scoped, preprocessed formula with <= {s_max} nodes (plain alphabet) / <= 4 nodes (with wild-cards and two domain labels), of every closed formula with <= 7 (thorough 8) nodes over the tiny alphabet {{a, AX, &, 3, @}} (sibling quantifiers sharing a depth name), of the template families and of 13 operand-position shapes x 17 identifier shapes (p53, HIV, V, 3x, var0, non-ASCII names, ...) x 8 label shapes: canonical form vs independent normal form as a partition (= all pairs), explicit all-pairs structural alpha-equivalence on up to {cap} sub-trees, renaming total/injective/consistent on free variables, idempotence; duplicate marking of every single formula and of every list of <= 3 formulae over a {n}-formula pool (collision alphabet + jump/domain shapes) against an independent occurrence count with domains of free variables; distinct_nontrivial = number of alpha-equivalence classes");
+    rep.rule = format!("every distinct sub-tree of every well-scoped, preprocessed formula with <= {s_max} nodes (plain alphabet) / <= 4 nodes (with wild-cards and two domain labels), of every closed formula with <= 7 (thorough 8) nodes over the tiny alphabet {{a, AX, &, 3, @}} (sibling quantifiers sharing a depth name), of the template families, of 27 nests of 13..24 and 33 quantifiers (canonical names var12 and beyond; every sub-formula with 1..d free variables) and of 13 operand-position shapes x 17 identifier shapes (p53, HIV, V, 3x, var0, non-ASCII names, ...) x 8 label shapes: canonical form vs independent normal form as a partition (= all pairs), explicit all-pairs structural alpha-equivalence on up to {cap} sub-trees, renaming total/injective/consistent on free variables, idempotence; duplicate marking of every single formula and of every list of <= 3 formulae over a {n}-formula pool (collision alphabet + jump/domain shapes) against an independent occurrence count with domains of free variables; distinct_nontrivial = number of alpha-equivalence classes");
     Ok(rep)
 }
